@@ -180,6 +180,10 @@ func (s *sharedEntryAttributes) resolve_leafref_key_path(ctx context.Context, ke
 		}
 
 		lvs := keyValue.GetHighestPrecedence(LeafVariantSlice{}, false)
+		if len(lvs) == 0 {
+			// the leaf the key of the leafref path refers to carries no value
+			return fmt.Errorf("unable to resolve key %s of leafref, %s has no value", k, v.value)
+		}
 		tv, err := lvs[0].Value()
 		if err != nil {
 			return err
